@@ -159,7 +159,35 @@ func TestUnlockNotHeld(t *testing.T) {
 			ents = 4 // entity 3 is never used by a script: "nothing registered at all"
 		}
 		inj := &injection{Pos: rapid.IntRange(0, total).Draw(rt, "pos")}
-		if rapid.Bool().Draw(rt, "wrongIsWrite") {
+		if rapid.IntRange(0, 3).Draw(rt, "aimed") > 0 {
+			// aim at "held in the other mode": pick an acquire operation of the script, take one of its
+			// entities and the unlock of the opposite mode, shortly after that operation is issued
+			g := rapid.IntRange(0, len(s.Progs)-1).Draw(rt, "aimG")
+			var acq []int
+			for i, o := range s.Progs[g] {
+				if o.acquire() {
+					acq = append(acq, i)
+				}
+			}
+			i := rapid.SampledFrom(acq).Draw(rt, "aimOp")
+			o := s.Progs[g][i]
+			e := rapid.SampledFrom(o.Ents).Draw(rt, "aimEnt")
+			if o.Kind == opLock {
+				inj.Op = runlockOp(e)
+			} else {
+				inj.Op = unlockOp(e)
+			}
+			seen := 0
+			for k, og := range s.Order {
+				if og == g {
+					if seen == i {
+						inj.Pos = min(total, k+1+rapid.IntRange(0, 2).Draw(rt, "aimDelay"))
+						break
+					}
+					seen++
+				}
+			}
+		} else if rapid.Bool().Draw(rt, "wrongIsWrite") {
 			inj.Op = unlockOp(rapid.IntRange(0, ents-1).Draw(rt, "we"))
 		} else {
 			es := []int{rapid.IntRange(0, ents-1).Draw(rt, "re")}
